@@ -68,6 +68,11 @@ pub fn pool() -> Vec<(&'static str, &'static str)> {
         // (what another item's constructor does must not make it a constructor assignment)
         ("assignment-in-initialiser", "contract Ai# { uint256 x# ; uint256 y# = ( x# = 5 ) ; }"),
         ("assignment-in-base-arguments", "contract Ab# is A0 ( z# = 1 ) { uint256 z# ; }"),
+        // loops with missing parts in one item, a length-bounded loop in another
+        ("for-without-condition", "library Fw# { function w# ( uint256 n ) internal { for ( uint256 i = 0 ; ; i ++ ) { if ( i >= n ) { break ; } } for ( ; ; ) { break ; } } }"),
+        ("cache-length-loop", "contract Cl# { uint256 [ ] members# ; function c# ( ) public { for ( uint256 i = 0 ; i < members# . length ; i ++ ) { } } }"),
+        // a contract without constructor that writes its variables only in receive / fallback / a modifier
+        ("writes-in-receive-fallback-modifier", "contract Wr# { uint256 r# ; uint256 f# ; uint256 m# ; receive ( ) external payable { r# = 1 ; } fallback ( ) external { f# = 2 ; } modifier mm# ( ) { m# = 3 ; _ ; } }"),
         ("library-of-named-struct", "library Ln# { struct Kind { uint128 a ; uint256 b ; uint128 c ; } function _k# ( Price p ) internal { } }"),
     ]
 }
@@ -320,7 +325,7 @@ pub fn run(tier: Tier) -> i32 {
     run.set("evaluations", calls);
     run.set("distinct_nontrivial", outcomes.len() as u64);
     run.set("item_templates", n as u64);
-    run.set("rule", "states = files built from all sequences with repetition of 2 items (x pragma first / between / last) and of 3 items (quick: every 4th; thorough: all, pragma first and last) from a pool of 45 item templates instantiated with fresh identifier suffixes; transitions = detector calls on the whole file and on each item-wise blanked file (28 detectors); oracle = set equality of the whole-file lines with the union of the per-item lines; non-trivial = distinct (detector, whole-file result) outcomes");
+    run.set("rule", "states = files built from all sequences with repetition of 2 items (x pragma first / between / last) and of 3 items (quick: every 4th; thorough: all, pragma first and last) from a pool of 48 item templates instantiated with fresh identifier suffixes; transitions = detector calls on the whole file and on each item-wise blanked file (28 detectors); oracle = set equality of the whole-file lines with the union of the per-item lines; non-trivial = distinct (detector, whole-file result) outcomes");
     run.set("bound_completed", if tier == Tier::Quick { "all pairs x 3 pragma positions; every 4th triple" } else { "all pairs and all triples" });
     run.set("samples", json!(seqs.iter().step_by(seqs.len() / 3 + 1).take(3).map(|(s, p)| json!({"items": s.iter().map(|&i| pool[i].0).collect::<Vec<_>>(), "pragma_position": p})).collect::<Vec<_>>()));
     run.finish()
